@@ -635,6 +635,13 @@ func (ex *Exec) inlineCall(key string, callee *ssa.Function, ts TSubst, clo *ssa
 			}
 			st.m[k] = ex.vc.define("ij_"+k, srt, term)
 		}
+		var olds []*State
+		var conds []string
+		for _, r := range sub.rets {
+			olds = append(olds, r.st.old)
+			conds = append(conds, r.reach)
+		}
+		st.old = ex.mergeOlds(olds, conds)
 	}
 	_ = edges
 	var rs []string
@@ -731,6 +738,7 @@ func (ex *Exec) contractCall(key string, spec *FuncSpec, callee *ssa.Function, t
 			}
 		}
 	}
+	ex.concCallEnter(spec, ev, pos)
 	// axioms about the uninterpreted functions the callee's contract mentions
 	for _, ax := range ex.vc.w.Contracts.axiomsFor(spec) {
 		seen := false
@@ -746,6 +754,9 @@ func (ex *Exec) contractCall(key string, spec *FuncSpec, callee *ssa.Function, t
 	}
 	// requires
 	for k, r := range spec.Requires {
+		if modeSkip(r, ex.vc.conc) {
+			continue
+		}
 		t := ev.evalBool(r.Expr)
 		ex.vc.oblige(fmt.Sprintf("call.%s.requires[%d]", callee.Name(), k+1)+ordSuffix(ord), "", pos, ex.curReach, t, "precondition of "+key+": "+r.Text)
 	}
@@ -824,9 +835,13 @@ func (ex *Exec) contractCall(key string, spec *FuncSpec, callee *ssa.Function, t
 		}
 	}
 	for _, e := range spec.Ensures {
+		if modeSkip(e, ex.vc.conc) || (ex.vc.conc && spec.Opts["multi-section"] != "" && (e.Tag == "" || e.Tag == "seq")) {
+			continue
+		}
 		t := pev.evalBool(e.Expr)
 		ex.vc.assume(sImp(ex.curReach, t))
 	}
+	ex.concCallLeave(spec)
 	return res
 }
 
